@@ -265,9 +265,11 @@ func FindAllBuildFiles(config *core.Configuration, rootPath, prefix string) <-ch
 			} else if cli.ContainsString(name, config.Parse.ExperimentalDir) {
 				return filepath.SkipDir // Skip the experimental directory if it's set
 			}
-			// Check against blacklist
+			// Check against blacklist. Entries are either the name of a directory at any level
+			// or the path of one; compare whole path components so "out" doesn't blacklist "output".
 			for _, dir := range config.Parse.BlacklistDirs {
-				if dir == basename || strings.HasPrefix(name, dir) {
+				dir = strings.TrimSuffix(dir, "/")
+				if dir == basename || dir == name || strings.HasPrefix(name, dir+"/") {
 					return filepath.SkipDir
 				}
 			}
